@@ -530,6 +530,18 @@ func (db *DB) Open() error {
 		if err := db.ApplyLTXNoLock(ltxFilename, false); err != nil {
 			return fmt.Errorf("recover ltx: %w", err)
 		}
+
+		// A snapshot replaces the whole transaction log. Files of the previous
+		// log are left behind if the node stopped between renaming a streamed
+		// snapshot into place and removing the others. They must not outlive
+		// the snapshot, otherwise retention can remove the snapshot and keep a
+		// file that does not belong to the database any more.
+		if minTXID, _, err := ltx.ParseFilename(filepath.Base(ltxFilename)); err == nil && minTXID == 1 {
+			dir, file := filepath.Split(ltxFilename)
+			if err := removeFilesExcept(db.os, dir, file); err != nil {
+				return fmt.Errorf("remove ltx except snapshot: %w", err)
+			}
+		}
 	}
 
 	return nil
